@@ -231,3 +231,90 @@ Definition bk_data_ok (fill : dat) (ds : list dat) : Prop :=
   Forall (fun d => bk_invalid fill d = true \/ d <> None) ds.
 Definition bk_finite (ds : list dat) : Prop := Forall (fun d => d <> None) ds.
 Definition bk_vals (ds : list dat) : list Z := flat_map (fun d => match d with Some v => [v] | None => [] end) ds.
+
+(* ------------------------------------------------------------------ the per-element pieces of the statistics
+   (the element-wise statements of get_sum / get_average / get_fractions; Proofs/C07_gen.v ties them to the
+   definitions regenerated from /repo and shows the functions above are their compositions) *)
+Definition bk_weight (fill d : dat) : dat := if bk_invalid fill d then Some 0 else d.
+Definition bk_missing_apply (missing : Z) (fill s : dat) : dat := if 0 <? missing then fill else s.
+Definition bk_ebv_apply (ebv s : dat) : dat :=
+  if dat_eqb ebv (Some 0) then s else if dat_eqb s (Some 0) then ebv else s.
+Definition bk_avg_datum (fill d : dat) : dat :=
+  if dat_isnan fill then d else if dat_eqb d fill then None else d.
+Definition bk_cat_flag (cat : Z) (d : dat) : Z := if dat_eqb d (Some cat) then 1 else 0.
+Section BucketPieces.
+  Context {T : Type} (OP : ops T).
+  Definition bk_avg_cell (s : dat) (c : Z) (fill : dat) : option T :=
+    let avg := if c =? 0 then None
+               else match s with Some v => Some (div OP (ofZ OP v) (ofZ OP c)) | None => None end in
+    match avg with Some v => Some v | None => bk_fill_T OP fill end.
+  Definition bk_frac_cell (s c : Z) (fill : dat) : option T :=
+    if c =? 0 then bk_fill_T OP fill else Some (div OP (ofZ OP s) (ofZ OP c)).
+  (* a datum as a value of the carrier *)
+  Definition dat_embT (d : dat) : T := match d with Some v => ofZ OP v | None => nan OP end.
+End BucketPieces.
+
+(* ------------------------------------------------------------------ one BucketResampler object through a history of calls
+   State kept between calls: the chunk layout of self.idxs (get_sum / _call_bin_statistic re-chunk it in place to match the data)
+   and the memoised self.counts of get_count. *)
+Fixpoint bk_split_chunks {A} (lens : list nat) (l : list A) : list (list A) :=
+  match lens with
+  | [] => match l with [] => [] | _ => [l] end
+  | n :: r => firstn n l :: bk_split_chunks r (skipn n l)
+  end.
+
+(* get_sum on chunked inputs: per-chunk histograms of (idxs, weights), and of the idxs of the missing data, summed by dask *)
+Definition bk_get_sum_chunked (size : Z) (lens : list nat) (idxs : list Z) (data : list dat) (fill : dat) (skipna : bool) (ebv : dat)
+  : Z -> dat :=
+  let sums := bk_hist_chunked oadd (Some 0) size (bk_split_chunks lens (combine idxs (bk_weights fill data))) in
+  let sums1 := if skipna then sums
+               else let missing := bk_hist_chunked Z.add 0 size
+                                     (map (fun ch => map (fun p => (fst p, 1)) (filter (fun p : Z * dat => bk_invalid fill (snd p)) ch))
+                                          (bk_split_chunks lens (combine idxs data))) in
+                    fun k => if 0 <? missing k then fill else sums k in
+  if dat_eqb ebv (Some 0) then sums1
+  else fun k => if dat_eqb (sums1 k) (Some 0) then ebv else sums1 k.
+
+Record bk_obj := mk_obj { o_size : Z; o_chunks : list (list Z); o_counts : option (list Z) }.
+Inductive bk_call :=
+| CallCount
+| CallSum (lens : list nat) (data : list dat) (fill : dat) (skipna : bool) (ebv : dat)
+| CallMin (lens : list nat) (data : list dat)
+| CallMax (lens : list nat) (data : list dat).
+Inductive bk_result := ResZ (l : list Z) | ResD (l : list dat).
+
+Definition bk_rechunk (lens : list nat) (o : bk_obj) : bk_obj :=
+  mk_obj (o_size o) (bk_split_chunks lens (concat (o_chunks o))) (o_counts o).
+
+Definition bk_step (o : bk_obj) (c : bk_call) : bk_obj * bk_result :=
+  let size := o_size o in
+  match c with
+  | CallCount =>
+      match o_counts o with
+      | Some cs => (o, ResZ cs)                                        (* memoised *)
+      | None => let cs := bk_cells size (bk_hist_chunked Z.add 0 size (map (map (fun i => (i, 1))) (o_chunks o))) in
+                (mk_obj size (o_chunks o) (Some cs), ResZ cs)
+      end
+  | CallSum lens data fill skipna ebv =>
+      let o' := bk_rechunk lens o in
+      (o', ResD (bk_cells size (bk_get_sum_chunked size lens (concat (o_chunks o')) data fill skipna ebv)))
+  | CallMin lens data =>
+      let o' := bk_rechunk lens o in (o', ResD (bk_cells size (bk_get_min size (concat (o_chunks o')) data)))
+  | CallMax lens data =>
+      let o' := bk_rechunk lens o in (o', ResD (bk_cells size (bk_get_max size (concat (o_chunks o')) data)))
+  end.
+
+Fixpoint bk_run (o : bk_obj) (calls : list bk_call) : list bk_result :=
+  match calls with
+  | [] => []
+  | c :: r => let '(o', res) := bk_step o c in res :: bk_run o' r
+  end.
+
+(* the same call on a fresh object holding the same indices in one chunk *)
+Definition bk_fresh (size : Z) (idxs : list Z) (c : bk_call) : bk_result :=
+  match c with
+  | CallCount => ResZ (bk_cells size (bk_count size idxs))
+  | CallSum _ data fill skipna ebv => ResD (bk_cells size (bk_get_sum size idxs data fill skipna ebv))
+  | CallMin _ data => ResD (bk_cells size (bk_get_min size idxs data))
+  | CallMax _ data => ResD (bk_cells size (bk_get_max size idxs data))
+  end.
